@@ -504,13 +504,13 @@ def Decoder_decode_loop1 {F : Type} (fuel : Nat) (s : Decoder_St) (m : Bytes) (a
   match fuel with
   | 0 => none
   | fuel + 1 => do
-    if (slt 32 0 v_curSize) then
-      let t5 ← Packet_isValidPacket m v_packetPtr (sext 32 64 v_curSize)
+    if (decide (v_curSize > 0)) then
+      let t5 ← Packet_isValidPacket m v_packetPtr v_curSize
       if (!t5) then
         let s := { s with f_segmentedPackets := mapErase s.f_segmentedPackets (v_deviceId, v_streamId) }
         pure (s, v_packets, v_packetPtr, v_curSize, v_packet)
       else
-        let t6 ← Decoder_isSegmentedPacket m v_packetPtr (sext 32 64 v_curSize)
+        let t6 ← Decoder_isSegmentedPacket m v_packetPtr v_curSize
         if (!t6) then
           let s := { s with f_segmentedPackets := mapErase s.f_segmentedPackets (v_deviceId, v_streamId) }
           let t7 ← CmpHeader_getMessageType m v_header
@@ -523,41 +523,40 @@ def Decoder_decode_loop1 {F : Type} (fuel : Nat) (s : Decoder_St) (m : Bytes) (a
           let v_packets := v_packets ++ [Sum.inl v_packet]
           let v_packetSize := (uadd 64 (pktPayloadLength v_packet) 16)
           let v_packetPtr := (v_packetPtr + v_packetSize)
-          let t10 ← ssub 32 v_curSize (v_packetSize % 4294967296)
-          let v_curSize := t10
+          let v_curSize := (usub 64 v_curSize v_packetSize)
           Decoder_decode_loop1 fuel s m a_data a_size v_dataPtr v_packets v_header v_deviceId v_streamId v_packetPtr v_curSize v_packet
         else
-          let t11 ← Decoder_isFirstSegment m v_packetPtr (sext 32 64 v_curSize)
-          let (s, v_packets, v_packet) ← (if t11 then (do
-              let t12 ← CmpHeader_getVersion m v_header
-              let t13 ← CmpHeader_getMessageType m v_header
-              let t14 ← CmpHeader_getSequenceCounter m v_header
-              let (v_segmentedPacket, _) ← Decoder_SegmentedPacket_SegmentedPacket_ctor_obj Decoder_SegmentedPacket_default m v_packetPtr (sext 32 64 v_curSize) t12 t13 t14
+          let t10 ← Decoder_isFirstSegment m v_packetPtr v_curSize
+          let (s, v_packets, v_packet) ← (if t10 then (do
+              let t11 ← CmpHeader_getVersion m v_header
+              let t12 ← CmpHeader_getMessageType m v_header
+              let t13 ← CmpHeader_getSequenceCounter m v_header
+              let (v_segmentedPacket, _) ← Decoder_SegmentedPacket_SegmentedPacket_ctor_obj Decoder_SegmentedPacket_default m v_packetPtr v_curSize t11 t12 t13
               let (mp_, _) := mapIndex s.f_segmentedPackets (v_deviceId, v_streamId) Decoder_SegmentedPacket_default
               let s := { s with f_segmentedPackets := mapPut mp_ (v_deviceId, v_streamId) v_segmentedPacket }
               pure (s, v_packets, v_packet))
             else (do
-              let t15 ← CmpHeader_getVersion m v_header
-              let t16 ← CmpHeader_getMessageType m v_header
-              let t17 ← CmpHeader_getSequenceCounter m v_header
-              let (mp_, el19) := mapIndex s.f_segmentedPackets (v_deviceId, v_streamId) Decoder_SegmentedPacket_default
+              let t14 ← CmpHeader_getVersion m v_header
+              let t15 ← CmpHeader_getMessageType m v_header
+              let t16 ← CmpHeader_getSequenceCounter m v_header
+              let (mp_, el18) := mapIndex s.f_segmentedPackets (v_deviceId, v_streamId) Decoder_SegmentedPacket_default
               let s := { s with f_segmentedPackets := mp_ }
-              let (el19, t18) ← Decoder_SegmentedPacket_addSegment_obj el19 m v_packetPtr (sext 32 64 v_curSize) t15 t16 t17
-              let s := { s with f_segmentedPackets := mapPut s.f_segmentedPackets (v_deviceId, v_streamId) el19 }
-              let (s, v_packets, v_packet) ← (if (!t18) then (do
+              let (el18, t17) ← Decoder_SegmentedPacket_addSegment_obj el18 m v_packetPtr v_curSize t14 t15 t16
+              let s := { s with f_segmentedPackets := mapPut s.f_segmentedPackets (v_deviceId, v_streamId) el18 }
+              let (s, v_packets, v_packet) ← (if (!t17) then (do
                   let s := { s with f_segmentedPackets := mapErase s.f_segmentedPackets (v_deviceId, v_streamId) }
                   pure (s, v_packets, v_packet))
                 else (do
-                  let (mp_, el21) := mapIndex s.f_segmentedPackets (v_deviceId, v_streamId) Decoder_SegmentedPacket_default
+                  let (mp_, el20) := mapIndex s.f_segmentedPackets (v_deviceId, v_streamId) Decoder_SegmentedPacket_default
                   let s := { s with f_segmentedPackets := mp_ }
-                  let (el21, t20) ← Decoder_SegmentedPacket_isAssembled_obj el21 
-                  let s := { s with f_segmentedPackets := mapPut s.f_segmentedPackets (v_deviceId, v_streamId) el21 }
-                  let (s, v_packets, v_packet) ← (if t20 then (do
-                      let (mp_, el23) := mapIndex s.f_segmentedPackets (v_deviceId, v_streamId) Decoder_SegmentedPacket_default
+                  let (el20, t19) ← Decoder_SegmentedPacket_isAssembled_obj el20 
+                  let s := { s with f_segmentedPackets := mapPut s.f_segmentedPackets (v_deviceId, v_streamId) el20 }
+                  let (s, v_packets, v_packet) ← (if t19 then (do
+                      let (mp_, el22) := mapIndex s.f_segmentedPackets (v_deviceId, v_streamId) Decoder_SegmentedPacket_default
                       let s := { s with f_segmentedPackets := mp_ }
-                      let (el23, t22) ← Decoder_SegmentedPacket_getPacket_obj el23 
-                      let s := { s with f_segmentedPackets := mapPut s.f_segmentedPackets (v_deviceId, v_streamId) el23 }
-                      let v_packet := t22
+                      let (el22, t21) ← Decoder_SegmentedPacket_getPacket_obj el22 
+                      let s := { s with f_segmentedPackets := mapPut s.f_segmentedPackets (v_deviceId, v_streamId) el22 }
+                      let v_packet := t21
                       let v_packet := { v_packet with deviceId := v_deviceId }
                       let v_packet := { v_packet with streamId := v_streamId }
                       let v_packets := v_packets ++ [Sum.inl v_packet]
@@ -592,7 +591,7 @@ def Decoder_decode_obj {F : Type} (fuel : Nat) (s : Decoder_St) (m : Bytes) (a_d
         let v_streamId := t3
         let t4 ← nonneg 32 1
         let v_packetPtr := (v_header + t4 * 8)
-        let v_curSize := ((usub 64 a_size 8) % 4294967296)
+        let v_curSize := (usub 64 a_size 8)
         let v_packet := (default : PktOut)
         let (s, v_packets, v_packet) ← (if (v_curSize == 0) then (do
             let s := { s with f_segmentedPackets := mapErase s.f_segmentedPackets (v_deviceId, v_streamId) }
